@@ -28,5 +28,12 @@ C13 == (ev.ev = "resolve" /\ ev.judged) =>
 \* history independence: resolving the same text before and after other files were resolved in
 \* the same process gives the same result (nothing leaks through shared tables)
 C13Hist == ev.ev = "hist" => (ev.a = ev.b \/ Rep("resolving a file gives another result after an unrelated file was resolved in the same process", [before |-> ev.a, after |-> ev.b]))
+\* C06: the built attachment / the generated exec rules match exactly what @{exec_path} matches
+\* (witness paths computed by the AARE matcher over the shipped tunables)
+RepP(p, what, d) == PrintT("VIOL " \o ToJson([p |-> p, id |-> ev.id, what |-> what, d |-> d]))
+C06 == ev.ev = "attach" =>
+    /\ (ev.error = "" \/ RepP("C06", "the patterns could not be compared", ev.error))
+    /\ (ev.lost = <<>>  \/ RepP("C06", "paths matched by @{exec_path} under the shipped tunables are not matched by what the build wrote", ev.lost))
+    /\ (ev.added = <<>> \/ RepP("C06", "the build wrote a pattern that matches paths @{exec_path} does not", ev.added))
 Accepted == TLCGet("stats").diameter = Len(Trace) + 1
 =============================================================================
